@@ -44,6 +44,20 @@ ObsProportional == (R.cls = "cat" /\ R.cat = "ord") =>
     \A i, j \in 1..NP : /\ Abs(P(i).d * OD(j) - P(j).d * OD(i)) <= Tol(P(i).d) * OD(j) + Tol(P(j).d) * OD(i)
                         /\ Abs(P(i).comp * OD(j) - P(j).comp * OD(i)) <= Tol(P(i).comp) * OD(j) + Tol(P(j).comp) * OD(i)
                         /\ (OD(i) > 0 => P(i).d > 0)
+\* Levenshtein: for pairs of labels with the same longer length, the value is proportional to the edit distance
+\* (labels are handed over as sequences of character codes, R.strs[rank])
+RECURSIVE Lev(_, _)
+Lev(a, b) == IF a = <<>> THEN Len(b) ELSE IF b = <<>> THEN Len(a)
+             ELSE LET sub == Lev(Tail(a), Tail(b)) + (IF Head(a) = Head(b) THEN 0 ELSE 1)
+                      del == Lev(Tail(a), b) + 1
+                      ins == Lev(a, Tail(b)) + 1
+                  IN IF sub <= del /\ sub <= ins THEN sub ELSE IF del <= ins THEN del ELSE ins
+LD(i) == Lev(R.strs[P(i).u[3]], R.strs[P(i).v[3]])
+MaxLen(i) == IF Len(R.strs[P(i).u[3]]) > Len(R.strs[P(i).v[3]]) THEN Len(R.strs[P(i).u[3]]) ELSE Len(R.strs[P(i).v[3]])
+ObsLevenshtein == (R.cls = "cat" /\ R.cat = "lev") =>
+    /\ \A i \in 1..NP : (LD(i) = 0) = (P(i).d = 0)
+    /\ \A i, j \in 1..NP : MaxLen(i) = MaxLen(j) =>
+           Abs(P(i).d * LD(j) - P(j).d * LD(i)) <= Tol(P(i).d) * LD(j) + Tol(P(j).d) * LD(i)
 \* combined with an ordinal / Levenshtein component: the categorical part  (d - alpha*pos)/beta  obeys the same relations
 ObsCombinedOneDeltaEmpty == (R.cls = "comb" /\ R.cat = "abs") =>          \* the categorical term carries the COMBINED delta_empty
     \A i \in 1..NP : (Exact(i) /\ P(i).u[1] = P(i).v[1] /\ P(i).u[2] = P(i).v[2] /\ P(i).u[3] # P(i).v[3])
@@ -64,4 +78,5 @@ Verdicts ==
     /\ Judge("ObsNamesOnly", ObsNamesOnly)
     /\ Judge("ObsProportional", ObsProportional)
     /\ Judge("ObsCombinedOneDeltaEmpty", ObsCombinedOneDeltaEmpty)
+    /\ Judge("ObsLevenshtein", ObsLevenshtein)
 =============================================================================
